@@ -38,6 +38,12 @@ CLAIMED = {
             "K symbolic front/back steps (stepping on after exhaustion) are compared with std, for the forward and reversed iterator "
             "types; the for_each!/eval! macro route is checked for ranges of up to 4 items. Bounded in the number of steps, not in the values.",
             "DESIGN.md#c09"),
+    "C11": (BMC + "<[T;N]>::map / core::array::from_fn slot by slot (unwritten memory is nondeterministic under CBMC), should_panic / diverging twins for hostile closures and builder misuse",
+            "For N in {0,1,2,4}, every input array and every closure of the symbolic families: map!/map_!/from_fn!/from_fn_! equal std in "
+            "every slot; with break / panic at a symbolic position the macro panics and the statement after it is unreachable; with continue "
+            "it does not return within the bound; return / labelled break produce no array; ArrayBuilder under every operation sequence "
+            "returns the pushed values, and build-before-full / push-when-full panic. collect_const!'s const wrapper is outside the claim.",
+            "DESIGN.md#c11"),
     "C12": (BMC + "str::parse on symbolic strings (whole-string), and a longest-digit-run reference + str::parse for Parser prefix parsing",
             "Whole-string parsing of every integer type and bool is compared with str::parse for every string up to the stated length "
             "(valid UTF-8 for 8/16-bit types, ASCII for wider ones; leading '+' excluded as the property states), plus the 1000-string "
